@@ -314,6 +314,7 @@ func runAnyutil(cfg *Cfg) {
 		}
 	}
 	retainedPass(out, targets)
+	resolverHistoryPass(out, targets, r)
 	extensionPass(out)
 	out.Sample("anyunpack x" + hex.EncodeToString([]byte(urls[0])) + " m:… nf ok")
 }
@@ -476,4 +477,95 @@ func scriptAns(a string) string {
 		return "m:" + hex.EncodeToString([]byte(a[2:]))
 	}
 	return a
+}
+
+
+// mutableFiles: a file resolver whose content can be replaced between calls (same object).
+type mutableFiles struct{ cur protodesc.Resolver }
+
+func (m *mutableFiles) FindFileByPath(p string) (protoreflect.FileDescriptor, error) {
+	return m.cur.FindFileByPath(p)
+}
+func (m *mutableFiles) FindDescriptorByName(n protoreflect.FullName) (protoreflect.Descriptor, error) {
+	return m.cur.FindDescriptorByName(n)
+}
+
+// resolverHistoryPass: Unpack is a function of (any, what the resolvers answer NOW). Histories on ONE resolver
+// object whose content changes between calls: the type is unknown to it at first (Unpack must fail), then the same
+// object learns the type (RegisterFile on a protoregistry.Files / the content of a custom resolver replaced), then
+// the type is replaced by another descriptor with the same full name. Every answer must be the one a fresh call
+// with the current content gives; the type registry is empty throughout (file-registry + dynamicpb path).
+func resolverHistoryPass(out *Out, targets []*Target, r *vschema.Rand) {
+	emptyTypes := new(protoregistry.Types)
+	done := 0
+	for _, t := range targets {
+		if done >= 12 {
+			break
+		}
+		fdesc := t.Desc.ParentFile()
+		if fdesc == nil || t.Desc.Parent() != protoreflect.Descriptor(fdesc) {
+			continue
+		}
+		g := &vval.GenOpts{MaxDepth: 2, EnumNums: enumNums(t)}
+		v := g.Message(r, t.S, 0, 0)
+		msg := t.B.ToMessage(0, v)
+		any, err := anyutil.New(msg)
+		if err != nil {
+			continue
+		}
+		done++
+		replay := "# resolver history for " + t.Full + ": Unpack with a file resolver that does not know the type, the same resolver object after it learnt the type, Unpack again"
+		check := func(step string, files protodesc.Resolver, wantOK bool) {
+			var m proto.Message
+			var uerr error
+			p, pm := guard(func() { m, uerr = anyutil.Unpack(any, files, emptyTypes) })
+			out.Case("resolver-history:"+t.Full+":"+step, true)
+			out.Count("resolver_history_steps")
+			switch {
+			case p:
+				out.Violate("C16", "unpack-panic", "Unpack panicked in a resolver history ("+step+"): "+firstLine(pm), replay)
+			case wantOK && uerr != nil:
+				out.Violate("C16", "unpack-stale-resolver-answer", "Unpack fails ("+uerr.Error()+") although the file resolver now defines the type ("+step+")", replay)
+			case !wantOK && uerr == nil:
+				out.Violate("C16", "unpack-stale-resolver-answer", "Unpack succeeds although the file resolver does not define the type ("+step+")", replay)
+			case wantOK:
+				// (the dynamic message cannot hold float32 signalling NaNs bit for bit: compare type and size only; the
+				// content of unpacked messages is compared by the main loop)
+				if proto.Size(m) != len(any.Value) || m.ProtoReflect().Descriptor().FullName() != t.Desc.FullName() {
+					out.Violate("C16", "unpack-roundtrip", "unpacked message differs from the packed one in a resolver history ("+step+")", replay)
+				}
+			}
+		}
+		// (a) a protoregistry.Files that learns the file later
+		files := new(protoregistry.Files)
+		check("files-before-register", files, false)
+		check("files-before-register-again", files, false)
+		regOK := true
+		var reg func(fd protoreflect.FileDescriptor)
+		seen := map[string]bool{}
+		reg = func(fd protoreflect.FileDescriptor) {
+			if seen[fd.Path()] {
+				return
+			}
+			seen[fd.Path()] = true
+			im := fd.Imports()
+			for i := 0; i < im.Len(); i++ {
+				reg(im.Get(i).FileDescriptor)
+			}
+			if err := files.RegisterFile(fd); err != nil {
+				regOK = false
+			}
+		}
+		reg(fdesc)
+		if regOK {
+			check("files-after-register", files, true)
+		}
+		// (b) a custom resolver object whose content is replaced
+		mf := &mutableFiles{cur: new(protoregistry.Files)}
+		check("custom-empty", mf, false)
+		mf.cur = protoregistry.GlobalFiles
+		check("custom-global", mf, true)
+		mf.cur = new(protoregistry.Files)
+		check("custom-empty-again", mf, false)
+	}
 }
